@@ -872,6 +872,16 @@ static mi_segment_t* mi_segment_os_alloc( size_t required, size_t page_alignment
     return NULL;  // failed to allocate
   }
 
+  // a huge segment must be fully committed (its commit mask cannot describe a partial commit): if the requested
+  // commit failed (the memory is then returned uncommitted), retry once and otherwise report out-of-memory.
+  if (required > 0 && commit && !memid.initially_committed) {
+    if (!_mi_os_commit(segment, segment_size, NULL)) {
+      _mi_arena_free(segment,segment_size,0,memid);
+      return NULL;
+    }
+    memid.initially_committed = true;
+  }
+
   // ensure metadata part of the segment is committed
   mi_commit_mask_t commit_mask;
   if (memid.initially_committed) {
